@@ -137,6 +137,22 @@ def pmap(fn, items, jobs=JOBS):
         return list(ex.map(fn, items))
 
 
+def pmap_until(fn, items, is_failure, enough=8, chunk=48, jobs=JOBS):
+    """like pmap, but in chunks, stopping once `enough` failing results have been seen: a badly broken crate (every history
+    crashes or hangs until its timeout) must not make the check run for an hour.  Returns (results, items actually run)."""
+    results = []
+    done = 0
+    items = list(items)
+    with ThreadPoolExecutor(max_workers=jobs) as ex:
+        while done < len(items):
+            part = items[done:done + chunk]
+            results += list(ex.map(fn, part))
+            done += len(part)
+            if sum(1 for r in results if is_failure(r)) >= enough:
+                break
+    return results, items[:done]
+
+
 # ------------------------------------------------------------------------------------------------ comparing
 HANDLE_RE = re.compile(r"(~?)@(\d+)")
 
@@ -210,7 +226,7 @@ def first_exact_diff(a_lines, b_lines):
 
 
 # ------------------------------------------------------------------------------------------------ shrinking
-def shrink(hist_lines, still_fails, budget=300):
+def shrink(hist_lines, still_fails, budget=300, max_seconds=45):
     """delta-debugging over history lines. Registers are positional, so a removed handle-producing line is replaced by
     a line that is skipped by both runners (keeps later register numbers valid)."""
     header = [l for l in hist_lines if l.split()[0] in ("cfg", "nvars")]
@@ -222,9 +238,13 @@ def shrink(hist_lines, still_fails, budget=300):
         return None if op in QUERY else "var 0"      # `var 0` is skipped by both runners and still owns a register
 
     calls = [0]
+    t_end = time.time() + max_seconds
 
     def test(b):
         calls[0] += 1
+        if time.time() > t_end:
+            calls[0] = budget + 1000         # out of time: stop shrinking, keep what we have
+            return False
         return still_fails(header + [x for x in b if x is not None])
 
     # 1. truncate after the failure
